@@ -795,8 +795,37 @@ func c02Gen(c *Ctx) {
 	c.SetExhaustive()
 	c.Note(fmt.Sprintf("exhaustive part: all sequences of length <= %d over %d operations (Set k with raw height h for k in {1,2,3}, h in {1,2,3,32}; Remove k; Clear; SetX 2; SetNx 2; RangeWithStart 2; Init) for SkipList (from the zero value) and SkipListWithCmp (after Init), each followed by Len, Shape, Head/Next walk, GetNode 2, RangeWithRange(2,3)", L, len(alpha)))
 
+	// ---- 2b. sampled longer sequences over the same small alphabet (lengths 4..8)
+	ns := c.N(16000, 200000)
+	c.Each(ns, func(i int, t *T) {
+		r := t.R
+		kd := []int64{0, 4, 5, 6}[i%4]
+		b := c02New(kd)
+		if kd >= 4 {
+			b.op(0, 0, 0, 0)
+		}
+		l := 4 + r.Intn(5)
+		for j := 0; j < l; j++ {
+			o := alpha[r.Intn(len(alpha))]
+			switch o.code {
+			case 1, 2, 3:
+				b.set(o.code, o.k, o.k*10+int64(j), o.h, nil)
+			case 16:
+				b.op(16, o.k, int64(r.Intn(3)), 0)
+			default:
+				b.op(o.code, o.k, 0, 0)
+			}
+		}
+		b.op(7, 0, 0, 0)
+		b.op(shape, 0, 0, 0)
+		b.op(9, 0, 0, 0)
+		b.op(5, int64(1+r.Intn(3)), 0, 0)
+		b.op(17, int64(r.Intn(5)), int64(r.Intn(5)), 0)
+		t.Try(fmt.Sprintf("alphabet-sample-%s", c02Kinds[kd]), b.in(), b.ins >= 1 && len(b.codes) >= 4)
+	})
+
 	// ---- 3. random sequences
-	n := c.N(12000, 400000)
+	n := c.N(24000, 400000)
 	c.Each(n, func(i int, t *T) {
 		r := t.R
 		kind := kinds[i%len(kinds)]
